@@ -24,14 +24,17 @@ PROP = dict(
         "tuples/arrays/sets/dict values; 15% are sets of 4-8 keys whose text order and < order disagree (offset strings/arrays/bytes, "
         "holes, mixed kinds); every case checks all clients of the order: < <= > >= = !=, orderby ., orderby .k, order \\a \\b a<b / a>b, "
         "rank with one and with two ranking attributes, max/min with . and .k, printed order of set members, dict entries and relation rows"],
-    level_text="Proof: 40 Lean theorems about the transliteration of all 15 Less methods (as repaired), Kind(), compareOps, OrderBy, "
+    level_text="Proof: 42 Lean theorems about the transliteration of all 15 Less methods (as repaired), Kind(), compareOps, OrderBy, "
                "OrderedValues, Rank, max/min: an order embedding less a b <-> key a < key b into a proved linear order gives "
                "irreflexivity, transitivity, trichotomy (exactly one of a<b, a=b, b<a), <= > >= as derived relations, "
                "representation independence, uniqueness of the sorted arrangement, orderby sorted/unique/enumeration-independent, "
                "rank = number of strictly smaller keys, max/min extremal - for every representation, no well-formedness hypothesis; "
                "witnesses that the unrepaired rules violated trichotomy or panicked. `=` is canonical-form equality; it is proved "
-               "sound for the meaning (a = b implies den a = den b, so incomparable values mean the same). Partial: the converse "
-               "(a < b implies different meanings) is the uniqueness of canonical representations (C02) and is not proved here. "
+               "sound for the meaning (a = b implies den a = den b, so incomparable values mean the same). For canonical "
+               "representations (Canonical r = C02's canonical-form invariant wf on the translated representation up r, "
+               "Arrai/C06/Unique.lean: den_up, key_complete via C02's wf_unique) the converse holds too: equal_iff_den (a = b "
+               "iff den a = den b) and trichotomy_den (exactly one of a < b, den a = den b, b < a); "
+               "trichotomy_den_needs_canonical shows the hypothesis cannot be dropped. "
                "The model is tied to /repo by regenerated facts (kind numbers, operator table) and by running both on generated "
                "pairs/triples/pools of values of all kinds on every run.",
     design_ref="DESIGN.md section 6, C06",
